@@ -292,7 +292,7 @@ func (e *c03Env) macVerdict(run c03Run, va c03AEADVariant, adLen, ctLen int64) c
 					segs = append(segs, n)
 					sum += n
 				}
-			case strings.HasPrefix(ev.Name, "encoding/binary.") && strings.HasSuffix(ev.Name, "PutUint64") && len(ev.Args) == 3 && ev.Args[2].K == c03Int:
+			case strings.HasPrefix(ev.Name, "encoding/binary.") && (strings.HasSuffix(ev.Name, "PutUint64") || strings.HasSuffix(ev.Name, "AppendUint64")) && len(ev.Args) == 3 && ev.Args[2].K == c03Int:
 				al, sawAL = ev.Args[2].I, true
 			}
 		}
